@@ -168,3 +168,9 @@ PROPS['C19'] = dict(
     assumptions=['source column indexes are non-negative (a negative -src-cols entry is a configuration error that crashes csvimport)'],
     trusted_base=['model Mkdb/Model/Csv.lean hand-written from cmd/csvimport/main.go'],
 )
+
+EXEC_FACTS = ['panics.engine.*', 'skeleton.engine.EvaluateSelect']
+PROPS['C05'] = dict(lean=['Mkdb.Props.C05'], facts=EXEC_FACTS, sig_filter=r'exec:(select:.*|header|panic|hang|no-output)', runs=[dict(cmd='exec', proto='exec', args=['select'])], claim='pending', note='pending', rule='')
+PROPS['C06'] = dict(lean=['Mkdb.Props.C06'], facts=EXEC_FACTS, sig_filter=r'exec:(join:.*|panic|hang|no-output)', runs=[dict(cmd='exec', proto='exec', args=['join'])], claim='pending', note='pending', rule='')
+PROPS['C07'] = dict(lean=['Mkdb.Props.C07'], facts=EXEC_FACTS, sig_filter=r'exec:(aggregate:.*|panic|hang|no-output)', runs=[dict(cmd='exec', proto='exec', args=['agg'])], claim='pending', note='pending', rule='')
+PROPS['C18'] = dict(lean=['Mkdb.Props.C18'], facts=EXEC_FACTS, sig_filter=r'exec:(panic|hang|no-output)', runs=[dict(cmd='exec', proto='exec', args=['confused'])], claim='pending', note='pending', rule='')
